@@ -1,6 +1,11 @@
 use crate::engine::{CheckInfo, Ctx};
 
+pub mod c01;
+pub mod c05;
 pub mod c09;
+pub mod c12;
+pub mod c13;
+pub mod c20;
 
 pub struct Check {
     pub info: &'static CheckInfo,
@@ -8,7 +13,14 @@ pub struct Check {
 }
 
 pub fn all() -> Vec<Check> {
-    vec![Check { info: &c09::INFO, run: c09::run }]
+    vec![
+        Check { info: &c01::INFO, run: c01::run },
+        Check { info: &c05::INFO, run: c05::run },
+        Check { info: &c09::INFO, run: c09::run },
+        Check { info: &c12::INFO, run: c12::run },
+        Check { info: &c13::INFO, run: c13::run },
+        Check { info: &c20::INFO, run: c20::run },
+    ]
 }
 
 pub fn find(prop: &str) -> Option<Check> {
